@@ -27,7 +27,7 @@ def _collect_one(arg):
     res = mod.execute(sc)
     v = res.get("violation")
     return {"seed": seed, "digests": res.get("digests"), "result_digest": res.get("result_digest"), "stats_events": res.get("stats", {}).get("events"),
-            "vclass": [v["kind"], v.get("site")] if v else None}
+            "fault_class": sc.get("fault_class"), "vclass": [v["kind"], v.get("site")] if v else None}
 
 
 def collect(prop, n, lanes):
@@ -78,7 +78,10 @@ def cmd_determinism(argv):
         def proj(r, strict):
             if r is None or strict:
                 return r
-            return {"result_digest": r.get("result_digest"), "vclass": r.get("vclass"), "harness_error": r.get("harness_error")}
+            # F8 runs (one injected storage read error): which read is the k-th depends on the task order, so under other
+            # dask tokens another operation may be the one that fails with SimIOError; only the verdict is comparable there
+            rd = None if r.get("fault_class") == "F8" else r.get("result_digest")
+            return {"result_digest": rd, "vclass": r.get("vclass"), "harness_error": r.get("harness_error")}
 
         for name, (strict, other) in variants.items():
             diff = [s for s in base if json.dumps(proj(base[s], strict), sort_keys=True) != json.dumps(proj(other.get(s), strict), sort_keys=True)]
